@@ -3,7 +3,8 @@ import TracklibVerif.Model.Graph
 `addNode` / `addEdge` / `run_routing_forward` / `shortest_distance` (pair and list form, with or without an
 `output_dict`) / `all_shortest_distances` / `prepare` / `prepared_shortest_distance` /
 `has_prepared_shortest_distance` / `sub_network(…, "TOPOLOGIC")` / `save_prep` + `load_prep` does to the object and returns
-(the file written by `save_prep` is taken to be read back unchanged by `load_prep`: numpy's pickle is not modelled).
+(`Op.saveLoad` is the two calls on one file name in one step — the identity on the object; the two methods on their own, with
+file names and the files as state, are `Model/GraphPrepFile.lean`, which proves that composition; numpy's pickle is not modelled).
 
 State carried between calls: the node table `NODES` (ids in insertion order), the edges, the routing flags of
 the `Node` objects (`poids`, `visite`, `antecedent`, `antecedent_edge` — written by the last search, *read by no
